@@ -83,7 +83,10 @@ func (x *Exec) siteName(p *Path, callee string) string {
 
 func (x *Exec) callFunc(p *Path, callee *ssa.Function, binds []SV, args []SV, res ssa.Value, in ssa.Instruction, work *[]*Path) bool {
 	key := fnKey(callee)
-	if callee.Pkg == nil || callee.Pkg.Pkg.Name() != "anytype" || callee.Blocks == nil {
+	// an instantiation of a generic helper of the package (go/ssa builds it as a function without package): it is
+	// executed like any contract-less in-package helper (inlined)
+	generic := callee.Pkg == nil && callee.Origin() != nil && callee.Origin().Pkg != nil && callee.Origin().Pkg.Pkg.Name() == "anytype" && callee.Blocks != nil
+	if !generic && (callee.Pkg == nil || callee.Pkg.Pkg.Name() != "anytype" || callee.Blocks == nil) {
 		return x.callExtern(p, callee, key, args, res, in, work)
 	}
 	switch key {
